@@ -43,7 +43,7 @@ ASSUMPTIONS = [
     "an authenticated frame whose plaintext is shorter than the 4-byte inner header is outside the statement's list and not generated",
 ]
 EXHAUSTIVE_NOTE = "all single-byte flips, truncation lengths, dup/swap/drop, marker and length-byte flips of every frame of the enumerated transcripts; full handshake-phase table; key lengths 0..64"
-BUDGET = {"quick": {"examples": 400, "shards": 6}, "thorough": {"examples": 6000, "shards": 16}}
+BUDGET = {"quick": {"examples": 400, "shards": 6}, "thorough": {"examples": 6000, "shards": 16, "fuzz": {"procs": 4, "runs": 15000}}}
 FLOORS = {"data_phase": 0.3, "handshake_phase": 0.1, "keystr": 0.05}
 
 B64 = string.ascii_uppercase + string.ascii_lowercase + string.digits + "+/"
